@@ -696,7 +696,10 @@ func (m *c19Model) key(initIdx int) [16]byte {
 		runA, runE = m.runA, m.runE
 	}
 	if m.closed {
-		fl, cur, runA, runE, last, buf = 1, 0, 0, 0, 0, 0
+		// closed handles differ in what the implementation may still hold: the extent of the last
+		// run of reads (a filled read buffer) stays in the key, so that "read some, close, use a
+		// stored iterator" is not merged with "open, close"
+		fl, cur, buf = 1, 0, 0
 	}
 	if !m.curKnown {
 		cur = -1
